@@ -104,6 +104,9 @@ def record_musig(run: Run, rnd: random.Random, thorough: bool, evs: list[dict[st
 
 
 def record_two_party(run: Run, rnd: random.Random, thorough: bool, evs: list[dict[str, Any]]) -> dict[str, int]:
+    from btclib.curves import secp256k1 as _k1
+
+    K1J = {"p": nat(_k1.p), "a": nat(_k1._a), "b": nat(_k1._b), "gx": nat(_k1.G[0]), "gy": nat(_k1.G[1]), "n": nat(_k1.n), "h": nat(_k1.cofactor)}
     from btclib.curves import mult, secp256k1
     from btclib.ecc import dh, dleq, ecies, ellswift
 
@@ -117,9 +120,26 @@ def record_two_party(run: Run, rnd: random.Random, thorough: bool, evs: list[dic
                 info = rnd.choice([b"", b"shared", rnd.randbytes(9)])
                 ka = outcome(lambda: dh.diffie_hellman(a, Bp, size, info, secp256k1, hf))
                 kb = outcome(lambda: dh.diffie_hellman(b, A, size, info, secp256k1, hf))
-                evs.append({"op": "dh", "d": nat(a), "q": pt(Bp), "size": size, "info": info.hex(), "hf": hf_name, "out": ka if isinstance(ka, str) else ka.hex()})
+                evs.append({"op": "dh", "c": K1J, "d": nat(a), "q": pt(Bp), "size": size, "info": info.hex(), "hf": hf_name, "out": ka if isinstance(ka, str) else ka.hex()})
                 evs.append({"op": "agree", "what": "diffie_hellman", "a": ka if isinstance(ka, str) else ka.hex(), "b": kb if isinstance(kb, str) else kb.hex()})
                 stats["dh"] += 1
+        # ECDH on the other curves it is offered on: field sizes that are and are not a whole number of octets (521 bits), orders shorter than the field
+        if _ == 0:
+            from btclib.curves import CURVES, mult as mult_
+
+            def cj(ec: Any) -> dict[str, str]:
+                return {"p": nat(ec.p), "a": nat(ec._a), "b": nat(ec._b), "gx": nat(ec.G[0]), "gy": nat(ec.G[1]), "n": nat(ec.n), "h": nat(ec.cofactor)}
+
+            for cname in (("secp521r1", "secp224r1", "secp160r1", "secp256r1", "secp384r1", "secp192k1") if thorough else ("secp521r1", "secp224r1", "secp160r1")):
+                ec = CURVES[cname]
+                for rep2 in range(4 if cname == "secp521r1" else 2):
+                    da, db = rnd.randrange(1, ec.n), rnd.randrange(1, ec.n)
+                    QA, QB = mult_(da, ec.G, ec), mult_(db, ec.G, ec)
+                    ka = outcome(lambda: dh.diffie_hellman(da, QB, 32, b"c16", ec, hashlib.sha256))
+                    kb = outcome(lambda: dh.diffie_hellman(db, QA, 32, b"c16", ec, hashlib.sha256))
+                    evs.append({"op": "dh", "c": cj(ec), "d": nat(da), "q": pt(QB), "size": 32, "info": b"c16".hex(), "hf": "sha256", "out": ka if isinstance(ka, str) else ka.hex(), "curve": cname})
+                    evs.append({"op": "agree", "what": f"diffie_hellman on {cname}", "a": ka if isinstance(ka, str) else ka.hex(), "b": kb if isinstance(kb, str) else kb.hex()})
+                    stats["dh"] += 1
         # BIE1: key derivation on both sides, every spelling of the recipient's key, and the round trip
         spellings = {"point": Bp, "compressed": sec(Bp), "uncompressed": b"\x04" + Bp[0].to_bytes(32, "big") + Bp[1].to_bytes(32, "big"), "compressed hex": sec(Bp).hex(),
                      "uncompressed hex": (b"\x04" + Bp[0].to_bytes(32, "big") + Bp[1].to_bytes(32, "big")).hex()}
@@ -280,6 +300,68 @@ def record_silent_payments(run: Run, rnd: random.Random, thorough: bool, evs: li
     return stats
 
 
+def record_psbt_silent_payments(run: Run, rnd: random.Random, thorough: bool, evs: list[dict[str, Any]]) -> int:
+    """BIP375: silent payments sent through a psbt -- per-input shares or one global share, plain and labelled recipients, a decoy output, two coins of one
+    key among the inputs -- the scripts the Signer role writes are recomputed by the specification's sender, and the recipient's scanner finds every one."""
+    from btclib import silent_payments as sp
+    from btclib.bip32 import BIP32KeyOrigin
+    from btclib.curves import mult
+    from btclib.hashes import hash160
+    from btclib.psbt import Psbt
+    from btclib.psbt import silent_payments as role
+    from btclib.psbt.psbt_in import PsbtIn
+    from btclib.psbt.psbt_out import PsbtOut
+    from btclib.script.script_pub_key import ScriptPubKey
+    from btclib.tx import OutPoint, TxOut
+
+    n = 0
+    bscan, bspend = rnd.randrange(1, N), rnd.randrange(1, N)
+    Bscan, Bspend = mult(bscan), mult(bspend)
+    keys = [rnd.randrange(1, N) for _ in range(3)]
+    plans = [([0], [None]), ([0, 1, 2], [None, 7, None]), ([1, 1], [None]), ([2, 0, 2], [3, None, 3]), ([0, 0, 0], [None, None])]
+    for input_keys, labels in plans:
+        for global_share in (True, False):
+            inputs, pub_keys = [], []
+            for k, i in enumerate(input_keys):
+                A = sec(mult(keys[i]))
+                spk = b"\x00\x14" + hash160(A)
+                pub_keys.append((mult(keys[i]), spk))
+                inputs.append(PsbtIn(witness_utxo=TxOut(60_000 + k, ScriptPubKey(spk)), previous_tx_id=bytes([0x40 + k]) * 32, output_index=k, hd_key_paths={A: BIP32KeyOrigin("deadbeef", "m/84h/0h/0h/0/0")}))
+            outputs, rs = [], []
+            for k, m in enumerate(labels):
+                Bm = Bspend if m is None else mult((bspend + sp.label_tweak(bscan, m)) % N)
+                outputs.append(PsbtOut(amount=10_000 + k, sp_v0_info=sec(Bscan) + sec(Bm)))
+                rs.append({"scan": sec(Bscan).hex(), "spend": sec(Bm).hex()})
+            outputs.insert(1, PsbtOut(amount=5_000, script_pub_key=b"\x51\x20" + mult(0xDEC0)[0].to_bytes(32, "big")))
+
+            def route() -> Any:
+                psbt = Psbt(2, inputs, outputs, 2, {}, tx_modifiable=3)
+                if global_share:
+                    role.set_global_share(psbt, [keys[i] for i in input_keys], bytes(32))
+                else:
+                    for vin_i, i in enumerate(input_keys):
+                        role.set_input_share(psbt, vin_i, keys[i], bytes(32))
+                role.assert_shares_as_valid(psbt)
+                role.set_output_scripts(psbt)
+                role.assert_as_valid(psbt)
+                return psbt
+
+            what = f"inputs {input_keys}, labels {labels}, {'one global share' if global_share else 'a share per input'}"
+            psbt = outcome(route)
+            if isinstance(psbt, str):
+                evs.append({"op": "holds", "what": f"silent payments through a psbt ({what}): {psbt}", "ok": False})
+                continue
+            paid = [bytes(o.script_pub_key[2:]) for o in psbt.outputs if o.sp_v0_info]
+            outpoints = [OutPoint(pin.previous_tx_id, pin.output_index) for pin in psbt.inputs]
+            evs.append({"op": "spsend", "inputs": [{"d": nat(keys[i]), "taproot": False} for i in input_keys], "outpoints": [o.serialize().hex() for o in outpoints], "rs": rs, "outs": [o.hex() for o in paid],
+                        "arm": f"psbt: {what}"})
+            lookup = sp.label_lookup(bscan, [0] + [m for m in labels if m is not None])
+            found = outcome(lambda: sp.scan_transaction_outputs(bscan, Bspend, outpoints, pub_keys, [bytes(o.script_pub_key[2:]) for o in psbt.outputs], lookup))
+            evs.append({"op": "holds", "what": f"the recipient's scanner finds every output a psbt paid it ({what})", "ok": (not isinstance(found, str)) and sorted(o.pub_key for o in found) == sorted(paid)})
+            n += 1
+    return n
+
+
 def record_psbt_musig(run: Run, rnd: random.Random, thorough: bool, evs: list[dict[str, Any]]) -> dict[str, int]:
     """BIP373: both rounds of a session run over a psbt, each signer on its own copy, merged by the Combiner, aggregated by the Finalizer and spent.
 
@@ -304,8 +386,10 @@ def record_psbt_musig(run: Run, rnd: random.Random, thorough: bool, evs: list[di
     plans = [(way, n, tree, sort) for way in ("output", "internal", "derived", "leaf") for n in ((1, 2, 3) if thorough else (2, 3)) for tree in (False, True) for sort in (False, True)
              if not (way == "output" and tree) and (thorough or sort == (n == 3))]
     for rep in range(2 if thorough else 1):
-        for way, n, tree, sort in plans:
+        for way, n, tree, sort in plans + [("output", 3, False, False), ("internal", 3, True, False)]:
             keys = [rnd.randrange(1, N) for _ in range(n)]
+            if (way, n, tree, sort) in plans[len(plans):] or (n == 3 and not sort and not tree and way == "output") or (n == 3 and tree and not sort and way == "internal"):
+                keys[2] = keys[0]                          # one signer listed twice: its nonce and its partial signature count once per occurrence
             pubs = [sec(mult(k)) for k in keys]
             if sort:
                 order = sorted(range(n), key=lambda j: pubs[j])
@@ -352,11 +436,12 @@ def record_psbt_musig(run: Run, rnd: random.Random, thorough: bool, evs: list[di
             spent = prevouts(psbt)
 
             def session() -> dict[str, Any]:
-                round_1 = [deepcopy(psbt) for _ in keys]
-                secnonces = [pm.nonce_gen(c, 0, k, agg, **kw) for c, k in zip(round_1, keys)]
+                signers = list(dict.fromkeys(keys))            # (a key listed twice is one signer)
+                round_1 = [deepcopy(psbt) for _ in signers]
+                secnonces = [pm.nonce_gen(c, 0, k, agg, **kw) for c, k in zip(round_1, signers)]
                 nonces_in = combine(round_1)
-                round_2 = [deepcopy(nonces_in) for _ in keys]
-                for c, k, sn in zip(round_2, keys, secnonces):
+                round_2 = [deepcopy(nonces_in) for _ in signers]
+                for c, k, sn in zip(round_2, signers, secnonces):
                     pm.partial_sign(c, 0, sn, k, agg, **kw)
                 signed = combine(round_2)
                 pin2 = signed.inputs[0]
@@ -480,6 +565,7 @@ def check(run: Run) -> None:
     s3 = record_silent_payments(run, rnd, thorough, evs)
     s4 = record_psbt_musig(run, rnd, thorough, evs)
     s5 = record_rings(run, rnd, thorough, evs)
+    s3["through_a_psbt"] = record_psbt_silent_payments(run, rnd, thorough, evs)
     keep = ("c", "ell", "ella", "ellb", "party", "rings", "e0", "v", "refused", "way", "agg", "internal", "root", "path", "spent_key", "accepted", "op", "pks", "tweaks", "pubnonces", "msg", "adaptor", "psigs", "verifies", "aggpk", "r", "s", "valid", "adapted_s", "adapted_valid", "extracted", "d", "q", "size", "info", "hf", "out",
             "iv", "ke", "km", "a", "b", "c", "g", "proof", "ok", "inputs", "outpoints", "rs", "outs", "bscan", "bspend", "labels", "found")
     compact = [{k: v for k, v in e.items() if k in keep} for e in evs]
